@@ -196,7 +196,7 @@ def simulate(scn: dict, overrides: Optional[dict] = None) -> dict:
                     add[-1, -1] += arr[-1, -1]
                     state["charge"] = state["charge"] + add
                     state["frame"] = True
-                elif b in ("scene", "data", "phase"):
+                elif b in ("scene", "data", "data_empty", "phase"):
                     pass
                 elif b == "clusters*2":
                     if state.get("frame"):
